@@ -93,11 +93,18 @@ func Harness_C26_tree() {
 	assert(uerr == nil, "unmarshal-ok")
 	assert(t2.TreeSize() == tree.TreeSize(), "unmarshal-size")
 	assert(t2.Root() == tree.Root(), "unmarshal-root")
+	// reloading into a tree object that was already in use (other content, root already queried)
+	t3 := NewTree(0, nil, nil)
+	t3.AppendHash(c26Leaf("otherleaf0"))
+	_ = t3.Root()
+	assert(t3.UnMarshal(buf) == nil, "unmarshal-into-used-tree-ok")
+	assert(t3.TreeSize() == tree.TreeSize(), "unmarshal-into-used-tree-size")
+	assert(t3.Root() == tree.Root(), "unmarshal-into-used-tree-root")
 }
 
 // Harness_C26_index: with pairwise distinct leaves, a proof for index m does not verify for another index.
 func Harness_C26_index() {
-	n := 2 + nondetRange("n", param("maxn")-1)
+	n := 1 + nondetRange("n", param("maxn"))
 	leaves := make([]common.Uint256, n)
 	for i := range leaves {
 		leaves[i] = c26Leaf("leaf")
@@ -111,7 +118,7 @@ func Harness_C26_index() {
 	}
 	ver := NewMerkleVerifier()
 	m := nondetRange("m", n)
-	o := nondetRange("o", n)
+	o := nondetRange("o", n+2) // any other index, including the out-of-range ones n and n+1
 	if o == m {
 		return
 	}
